@@ -536,14 +536,15 @@ def op1 (pool : Pool) (d : Nat) (f : Ct → Res Ct) : Res Pool :=
   | some cd => putRes pool d (f cd)
   | none => .err .badSlot pool
 
+/-- destination and source must be distinct slots (`&mut dst` and `&a` cannot alias in Rust) -/
 def op2 (pool : Pool) (d a : Nat) (f : Ct → Ct → Res Ct) : Res Pool :=
   match pool[d]?, pool[a]? with
-  | some cd, some ca => putRes pool d (f cd ca)
+  | some cd, some ca => if d = a then .err .badSlot pool else putRes pool d (f cd ca)
   | _, _ => .err .badSlot pool
 
 def op3 (pool : Pool) (d a b : Nat) (f : Ct → Ct → Ct → Res Ct) : Res Pool :=
   match pool[d]?, pool[a]?, pool[b]? with
-  | some cd, some ca, some cb => putRes pool d (f cd ca cb)
+  | some cd, some ca, some cb => if d = a ∨ d = b then .err .badSlot pool else putRes pool d (f cd ca cb)
   | _, _, _ => .err .badSlot pool
 
 /-- `ckks_align_assign(a, b)` (two distinct mutable ciphertexts) -/
